@@ -27,7 +27,10 @@ class BroadcastTo(ArrayExpr):
         meta_override = self.operand("_meta_override")
         # Only use meta_override if it has the correct ndim
         if meta_override is not None and hasattr(meta_override, "ndim") and meta_override.ndim == len(self._shape):
-            return meta_override
+            # Normalize like every other user-supplied ``meta=``: a non-empty
+            # sample must not become this node's meta (metadata inference of
+            # downstream ops would run user functions on it).
+            return meta_from_array(meta_override, ndim=len(self._shape))
         return meta_from_array(self.array._meta, ndim=len(self._shape))
 
     @functools.cached_property
